@@ -51,12 +51,15 @@ fn menu() -> Vec<Expr> {
         m.push(p(Action::FPrint0(f.into())));
         m.push(p(Action::FPrintf(f.into(), vec![Fmt::Field(Field::Name)])));
     }
+    // a destination some find implementations single out
+    m.push(p(Action::FPrintf("/dev/stdout".into(), vec![Fmt::Field(Field::Name)])));
+    m.push(p(Action::FPrint("/dev/stdout".into())));
     m
 }
 
 fn small_menu() -> Vec<Expr> {
     let m = menu();
-    [0usize, 1, 2, 6, 9, 12, 13, 14, 16, 17, 19].iter().map(|i| m[*i].clone()).collect()
+    [0usize, 1, 2, 6, 9, 12, 13, 14, 16, 17, 19, 22].iter().map(|i| m[*i].clone()).collect()
 }
 
 fn chain(items: &[Expr]) -> Expr {
@@ -319,6 +322,24 @@ pub fn run(ctx: &Ctx) -> i32 {
         let p = &patterns[(i / 2 / ns.len() as u64) as usize];
         check(&long_history(p, n, framed), acc);
     }));
+    // every value of the identifier counter at the moment two new printers are requested in a row
+    let counters: Vec<usize> = (2..=300).collect();
+    acc = acc.merge(speclib::report::par_items(&counters, |c, acc| {
+        for j in 0..2usize {
+            if *c < 2 + j || (*c - 2 - j) % 2 != 0 {
+                continue;
+            }
+            let k = (*c - 2 - j) / 2;
+            let mut h: Vec<Expr> = (0..k).map(|i| Expr::Test(Test::Name(format!("m{i}")))).collect();
+            for i in 0..j {
+                h.push(Expr::Action(Action::FPrint(format!("e{i}"))));
+            }
+            h.push(Expr::Action(Action::FPrint("a.lst".into())));
+            h.push(Expr::Action(Action::FPrint0("b.lst".into())));
+            h.push(Expr::Action(Action::FPrint("a.lst".into())));
+            check(&h, acc);
+        }
+    }));
     finish(
         ctx,
         acc,
@@ -326,7 +347,7 @@ pub fn run(ctx: &Ctx) -> i32 {
             level: "model_checking",
             exhaustive: true,
             rule: "state = history of resource requests (matchers over patterns a/A/a*/b in three test kinds, printers over stdout/f/g x newline/NUL/none), realised as an AND chain and driven through the real compile(); the real managers are rebuilt and the history replayed for every state; on the read-back program: scope analysis (bound once, bound before use, no unknown identifier), the body's references in order against the requests (sharing exactly for equal requests), and each referenced procedure applied in the runtime model to probe strings / a probe line; distinct = distinct (binding names, body references) shapes".into(),
-            bound: format!("every history of length 1..{full_len} over 22 requests and length {}..{small_len} over 11; periodic long histories (period <= 4 over matcher/stdout printer/file printer, fresh arguments) of {} sizes up to 300, plain and framed", full_len + 1, ns.len()),
+            bound: format!("every history of length 1..{full_len} over 24 requests and length {}..{small_len} over 12; periodic long histories (period <= 4 over matcher/stdout printer/file printer, fresh arguments) of {} sizes up to 300, plain and framed; for every value 2..300 of the identifier counter a history that requests two new printers in a row at exactly that value", full_len + 1, ns.len()),
             assumptions: vec!["runtime model of DESIGN.md §3 (make-printer, with-mutex, display)".into()],
             extra: serde_json::Map::new(),
         },
